@@ -150,3 +150,6 @@ def check(ctx):
     check_expected(ctx)
     check_open(ctx)
     check_log_file(ctx)
+    from . import c02
+    c02.check_manifest(ctx)    # MANIFEST record durable before CURRENT names it (a crash inside recovery must stay recoverable)
+    c17.check_current(ctx)
